@@ -393,6 +393,8 @@ var c01Programs = []string{
 	"gauge g\n/^(\\d+\\.\\d+) (\\d+\\.\\d+)/ {\n  $1 < $2 {\n    g = 1\n  }\n  $1 == $2 {\n    g = 2\n  }\n  $1 > $2 || $1 != $2 {\n    g += 4\n  }\n}\n",
 	"gauge g\n/^(\\w+) (\\w+)/ {\n  $1 < $2 {\n    g = 1\n  }\n  $1 == $2 {\n    g = 2\n  }\n  $1 > \"m\" {\n    g += 4\n  }\n}\n",
 	"counter a\ncounter b\n/^(\\d+)/ {\n  /^1/ {\n    a++\n  } else {\n    /^2/ {\n      b++\n    } else {\n      /^3/ {\n        a += 3\n      } else {\n        b += 4\n      }\n    }\n  }\n}\n",
+	// a deletion names its own tuple, whatever the order of the keys (the mirrored tuple is there too)
+	"counter hits by src, dst\n/^(\\S+) (add|del)$/ {\n  hits[$1][$2]++\n  hits[$2][$1]++\n}\n/^(\\S+) del$/ {\n  del hits[$1][\"del\"]\n}\n/^(\\S+) add$/ {\n  del hits[\"add\"][$1] after 1h\n}\n",
 	// a length as a truth value under && and || (zero is false, like every other integer)
 	"counter c\ncounter d\n/^(\\S*) add/ && len($1) && 1 {\n  c++\n}\n/^(\\S*) del/ && (len($1) || 0) {\n  d++\n}\n",
 }
